@@ -282,6 +282,44 @@ def rule_epoch_arithmetic(ctx, R):
             ctx.check(keyed and amt and zero, R, b, name + ':unseen-scene-starts-at-increment', 'default 0',
                       '%s does not start an unseen scene at 0 + increment' % name)
             continue
+        ins_calls = b.find_calls('std::collections::HashMap::insert')
+        if not incs and len(ins_calls) == 1 and eb.arg(ins_calls[0], 2).kind == 'phi':
+            # read-compute-store form: `let next = map.get(&scene).map_or(inc, |e| *e + inc); map.insert(scene, next)`
+            k = eb.arg(ins_calls[0], 1).strip()
+            v = eb.arg(ins_calls[0], 2)
+            alts = []
+
+            def flat(x):
+                if x.kind == 'phi':
+                    for y in x.args:
+                        flat(y)
+                else:
+                    alts.append(x.strip() if x.kind == 'call' else x)
+            flat(v)
+
+            def is_inc(x):
+                x = x.strip() if x.kind != 'const' else x
+                if inc == 'const1':
+                    return x.kind == 'const' and x.const.get('v') == '1'
+                return x.kind == 'place' and x.root == ('param', 3)
+            keyed = k.kind == 'place' and k.root == ('param', 2)
+            fresh = [a for a in alts if is_inc(a)]
+            adv = [a for a in alts if a.kind == 'bin' and a.name == 'Add' and is_inc(a.args[1]) and any(
+                y.kind == 'call' and y.name.rsplit('::', 1)[-1] in ('get', 'get_mut') and len(y.args) > 1 and
+                y.args[1].strip().kind == 'place' and y.args[1].strip().root == ('param', 2)
+                for y in a.args[0].walk())]
+            # the stored value reaches the map on every path to a Some result
+            r = count_on_paths(b, 0, b.returns(), [ins_calls[0].bb])
+            n += 2
+            ctx.check(keyed and len(adv) == 1 and len(adv) + len(fresh) == len(alts), R, b,
+                      name + ':existing-scene-advances', 'insert(%r, %r)' % (k, v),
+                      '%s does not advance the existing epoch of the scene parameter by %s (stored value: %r under key '
+                      '%r)' % (name, '1' if inc == 'const1' else 'n', v, k))
+            ctx.check(keyed and len(fresh) == 1 and len(adv) + len(fresh) == len(alts), R, b,
+                      name + ':unseen-scene-starts-at-increment', 'insert(%r, %r)' % (k, v),
+                      '%s does not store %s for a scene that has no epoch yet (stored value: %r): the first advance '
+                      'of a scene is lost or mis-keyed' % (name, '1' if inc == 'const1' else 'n', v))
+            continue
         n += 1
         okinc = len(incs) == 1
         detail = ''
